@@ -18,10 +18,10 @@ import (
 
 // A modSource yields fresh, never-printed copies of one module.
 type modSource struct {
-	Name     string
-	Parsed   bool // produced by asm (IDs pre-assigned in textual order) or by the ir constructors (IDs unassigned)
-	Build    func() *ir.Module
-	Unnamed  bool // has unnamed globals, locals and metadata definitions
+	Name    string
+	Parsed  bool // produced by asm (IDs pre-assigned in textual order) or by the ir constructors (IDs unassigned)
+	Build   func() *ir.Module
+	Unnamed bool // has unnamed globals, locals and metadata definitions
 	// How the module was built, for signatures: "" (parser or constructors only),
 	// "late-fields" (exported fields set after the constructors), "literal"
 	// (struct literals, lazily cached fields left nil where the documentation allows it).
@@ -108,7 +108,11 @@ func builtMix() *ir.Module {
 	g1 := m.NewGlobalDef("", constant.NewInt(types.I32, 2))
 	g1.Metadata = append(g1.Metadata, &metadata.Attachment{Name: "foo", Node: md3})
 	m.NewGlobalDef("named", g1)
-	arr := m.NewGlobalDef("", constant.NewArray(types.NewArray(2, types.I32), constant.NewInt(types.I32, 3), constant.NewInt(types.I32, 4)))
+	// constants whose printers have helper code: large integers (decimal or u0x notation), floats, strings
+	m.NewGlobalDef("big", constant.NewInt(types.I64, 1099511627776))
+	m.NewGlobalDef("", constant.NewStruct(types.NewStruct(types.I32, types.Double, types.NewArray(3, types.I8)),
+		constant.NewInt(types.I32, 65536), constant.NewFloat(types.Double, 3.25e100), constant.NewCharArrayFromString("a\"\n")))
+	arr := m.NewGlobalDef("", constant.NewArray(types.NewArray(2, types.I32), constant.NewInt(types.I32, 305419896), constant.NewInt(types.I32, 4096)))
 	arr.Immutable = true
 	_ = g0
 
@@ -151,7 +155,7 @@ func builtWide() *ir.Module {
 	m := ir.NewModule()
 	var gs []*ir.Global
 	for i := 0; i < 6; i++ {
-		gs = append(gs, m.NewGlobalDef("", constant.NewInt(types.I64, int64(i))))
+		gs = append(gs, m.NewGlobalDef("", constant.NewInt(types.I64, int64(i)<<20+65536)))
 	}
 	var mds []*metadata.Tuple
 	for i := 0; i < 6; i++ {
